@@ -15,8 +15,9 @@ from harness.runner import run_property
 PROP = "C10"
 THEOREMS = ["Lbfgsb.C10.reject_is_noop", "Lbfgsb.C10.accept_appends_and_drops_oldest", "Lbfgsb.C10.mem_le_maxcor_seq",
             "Lbfgsb.C10.newest_pair_curv", "Lbfgsb.C10.bfgs_symm", "Lbfgsb.C10.bfgs_secant", "Lbfgsb.C10.bfgs_posdef",
-            "Lbfgsb.C10.bfgs_chain_posdef", "Lbfgsb.C10.scaled_identity_spd"]
-MODULES = ["LbfgsbVerif.Props.C10"]
+            "Lbfgsb.C10.bfgs_chain_posdef", "Lbfgsb.C10.scaled_identity_spd", "Lbfgsb.C10.compact_secant",
+            "Lbfgsb.C10.compact_eq_bfgs", "Lbfgsb.C10.compact_eq_bfgs_of_curvature", "Lbfgsb.C10.nonDeg_of_curvature"]
+MODULES = ["LbfgsbVerif.Props.C10", "LbfgsbVerif.Props.C10Compact"]
 
 
 def dense_bfgs(X: List[np.ndarray], G: List[np.ndarray]) -> np.ndarray:
@@ -95,7 +96,12 @@ def evaluate(case: Dict[str, Any]) -> Dict[str, Any]:
             if kind == "same_x":
                 xn = X[-1].copy()
         before = (vshex(list(X)), vshex(list(G)), mats_digest(mats))
-        mats = update_lbfgs_matrices(xn.copy(), gn.copy(), X, G, maxcor, mats, bool(force), eps)
+        try:
+            mats = update_lbfgs_matrices(xn.copy(), gn.copy(), X, G, maxcor, mats, bool(force), eps)
+        except Exception as e:  # the routine itself fails on a valid history: a violation, not a harness failure
+            out["prop"].append({"what": f"update_lbfgs_matrices raised {type(e).__name__} on a valid history: {e}", "key": "",
+                                "detail": {"step": t, "stored_points": len(X)}})
+            break
         if force:
             out["tags"].append("forced_rebuild")
             any_force = True
